@@ -1,12 +1,15 @@
 #!/bin/bash
-# usage: selftest/try.sh <patch.diff> <PROP> [tier]  -- apply a seeded change to /repo, run the check, undo the change.
+# usage: selftest/try.sh <absolute patch.diff> <PROP> [tier]  -- apply a change to /repo, run the check, undo the change.
+# The check runs against a scratch copy of the lock/findings, so the committed evidence and replays are not overwritten.
 set -u
 patch="$1"; prop="$2"; tier="${3:-quick}"
 cd /repo || exit 2
 if ! git apply --check "$patch" 2>/dev/null; then echo "PATCH-DOES-NOT-APPLY $patch"; exit 3; fi
 git apply "$patch"
-files=$(git apply --numstat "$patch" -R 2>/dev/null | awk '{print $3}')
-( cd /verif && ./check "$prop" "$tier" ); rc=$?
+sv=$(mktemp -d "${TMPDIR:-/tmp}/govc-try.XXXXXX"); cp /verif/obligations.lock /verif/known-findings.txt "$sv/"; cp -r /verif/replay "$sv/" 2>/dev/null
+level=proof; case "$prop" in C05|C06|C07|C12|C14) level=other ;; esac
+( cd /verif && GOFLAGS=-mod=mod GOPROXY=off GOSUMDB=off GOTOOLCHAIN=local ./bin/govc check -verif "$sv" -level "$level" "$prop" "$tier" ); rc=$?
+rm -rf "$sv"
 git apply -R "$patch" || { echo "REVERT FAILED"; git checkout -- $(git diff --name-only); }
 echo "RESULT patch=$patch prop=$prop exit=$rc"
 exit $rc
